@@ -1,0 +1,10 @@
+//go:build !verif
+// +build !verif
+
+package wire
+
+// Verification hooks (build tag "verif"); no-ops in normal builds.
+
+func verifEnter(site string, n int) {}
+func verifStep(site string)         {}
+func verifLeave(site string)        {}
